@@ -27,7 +27,7 @@ COMPONENTS = {"real": ["yowsup.layers.__init__ (YowLayer.toLower locks, YowParal
 ASSUMPTIONS = ["six 1.17 shim on sys.path", "consonance randint(float) coerced by the RNG seam", "context switches at simulated "
                "primitives and PEP-669 events of yowsup/consonance/asyncore code; C calls atomic",
                "per-sender ordering is not demanded (the property does not state it)"]
-BUDGET = {"quick": (1600, 150), "thorough": (40000, 2400)}
+BUDGET = {"quick": (1600, 150), "thorough": (80000, 2700)}
 FAULTS = ["short_send", "tcp_cut", "tcp_coalesce"]
 PROBES = ["lock_contention", "ping_while_app_frame_in_flight", "buffered_after_short_send", "switch_inside_frame",
           "big_frame_gt_64k", "pings_sent", "ping_timeout_run", "reconnect_while_senders_active", "send_refused_during_reconnect", "sender_released_at_connected",
